@@ -1,15 +1,19 @@
 // C10 -- address registers step linearly, modulo or bit-reversed exactly as configured.
 //  step   one instruction that post-modifies Rn (modr forms, loads/stores/ALU forms through [Rn]step, the arp-driven
 //         modr_e/dmod forms which reach all eight step kinds): register afterwards and cell accessed vs the model
+//  arstep the same for *every* form that addresses through ar/arp words (the annotated disassembler names the registers, steps
+//         and modulo-disable flags; C20 ties that text to the interpreter): each named register afterwards vs the model
 //  walk   sequences of +1 / -1 steps under modulo: the register stays inside [base, base+mod], wraps at the edges,
 //         visits every cell once per lap, never changes the bits above the buffer alignment (both cmd modes)
 #include <map>
 #include <set>
 
+#include "arrefs.h"
 #include "icase.h"
 #include "optable.h"
 #include "pseudo_layout.h"
 #include "ref_addrgen.h"
+#include "teakra/disassembler.h"
 #include "vf.h"
 
 namespace {
@@ -281,6 +285,97 @@ vf::Result check(const icase::ICase& c) {
     return vf::Result::pass();
 }
 
+// ---- arstep: every ar/arp-addressed form ------------------------------------------------------------------------------------
+const std::vector<std::vector<uint16_t>>& ar_strata() {
+    static std::vector<std::vector<uint16_t>> g = [] {
+        std::map<std::string, std::vector<uint16_t>> m;
+        for (uint32_t w = 0; w < 0x10000; ++w) {
+            const optable::Info& i = optable::info((uint16_t)w);
+            if (i.entry >= 0 && arrefs::is_ar_form(i) && i.name.rfind("bkrep", 0) != 0) // bkrep forms: [rN] is a frame pointer
+                m[i.form + "#" + std::to_string(i.entry)].push_back((uint16_t)w);
+        }
+        std::vector<std::vector<uint16_t>> v;
+        for (auto& kv : m)
+            v.push_back(kv.second);
+        return v;
+    }();
+    return g;
+}
+
+int layout_word(const char* name) {
+    for (size_t i = 0; i < layout::words().size(); ++i)
+        if (layout::words()[i].name == std::string(name))
+            return (int)i;
+    return -1;
+}
+
+icase::ICase build_ar(const Seed& sd) {
+    icase::ICase c = build(sd);
+    const auto& grp = ar_strata()[(sd.pick >> 16) % ar_strata().size()];
+    c.opcode = grp[(sd.pick & 0xFFFF) % grp.size()];
+    vf::Stream s(sd.seed ^ 0x5151);
+    c.pokes = icase::gen_pokes(s, c.st, c.opcode, c.expansion);
+    return c;
+}
+
+vf::Result check_ar(const icase::ICase& c) {
+    const optable::Info info = optable::decode(c.opcode, c.expansion);
+    if (info.entry < 0 || !arrefs::is_ar_form(info) || info.name.rfind("bkrep", 0) == 0) {
+        vf::note(0, false);
+        return vf::Result::pass();
+    }
+    Teakra::Disassembler::ArArpSettings aa;
+    static const int ar0 = layout_word("ar0"), arp0 = layout_word("arp0");
+    for (int k = 0; k < 2; ++k)
+        aa.ar[k] = layout::read(ar0 + k, c.st);
+    for (int k = 0; k < 4; ++k)
+        aa.arp[k] = layout::read(arp0 + k, c.st);
+    auto tokens = Teakra::Disassembler::GetTokenList(c.opcode, c.expansion, aa);
+    std::vector<arrefs::Ref> refs = arrefs::parse_refs(tokens);
+    int count[8] = {0};
+    for (auto& rf : refs)
+        ++count[rf.reg];
+    icase::IResult r = sut().exec(c);
+    if (r.outcome != 0 || refs.empty()) {
+        vf::klass(refs.empty() ? "arstep: no register named" : "arstep: instruction did not complete (unimplemented / assert): no claim");
+        vf::note(0, false);
+        return vf::Result::pass();
+    }
+    bool changed = false, in_model = false;
+    std::string where = info.form + " op=" + vf::hex(c.opcode) + " text '" + Teakra::Disassembler::Do(c.opcode, c.expansion, aa) + "'";
+    for (auto& rf : refs) {
+        if (count[rf.reg] > 1 || !rf.has_step)
+            continue;
+        unsigned unit = (unsigned)rf.reg;
+        bool dmod = arrefs::dmod_for(tokens, rf.reg);
+        uint16_t pre = (uint16_t)c.st[flat::F_r + unit], post = (uint16_t)r.after[flat::F_r + unit];
+        std::optional<uint16_t> want = raddr::step(c.st, unit, pre, (raddr::Step)rf.step, dmod);
+        if (!want) {
+            vf::klass("arstep: out of model (modulo with a step other than +-1, start outside the buffer, narrowed 16-bit step)");
+            continue;
+        }
+        in_model = true;
+        bool modulo = c.st[flat::F_m + unit] && !c.st[flat::F_br + unit] && !dmod;
+        if (post != *want) {
+            unsigned mod = (unsigned)(unit >= 4 ? c.st[flat::F_modj] : c.st[flat::F_modi]);
+            return vf::Result::fail(std::string("C10:arstep:") + (modulo ? "modulo" : "linear") + ":" + info.name + ":" + std::to_string(rf.step) + (dmod ? ":dmod" : ""),
+                                    "r" + std::to_string(unit) + " = " + vf::hex(pre) + " is " + vf::hex(post) + " after the step but must be " + vf::hex(*want) +
+                                        " [step " + std::to_string(rf.step) + (dmod ? " dmod" : "") + " m=" + vf::hex(c.st[flat::F_m + unit]) + " br=" +
+                                        vf::hex(c.st[flat::F_br + unit]) + " mod=" + vf::hex(mod) + " cmd=" + vf::hex(c.st[flat::F_cmd]) + " stp16=" +
+                                        vf::hex(c.st[flat::F_stp16]) + "] for " + where);
+        }
+        if (post != pre)
+            changed = true;
+        vf::klass(std::string("arstep: ") + (modulo ? "modulo +-1" : (dmod && c.st[flat::F_m + unit] ? "modulo disabled by the instruction" : "linear")) +
+                  (unit >= 4 ? " (j side)" : " (i side)"));
+    }
+    uint64_t h = vf::hash_bytes(c.st.v, sizeof c.st.v, c.opcode);
+    vf::note(h, changed && in_model);
+    if (changed && (h % 20000) == 0)
+        vf::sample("arstep " + where);
+    return vf::Result::pass();
+}
+
 // ---- walk ----------------------------------------------------------------------------------------------------------
 struct Walk {
     unsigned unit = 0, mod = 0, cmd = 0, start_off = 0;
@@ -386,8 +481,22 @@ int main(int argc, char** argv) {
     p.encode = icase::encode;
     p.decode = icase::decode;
     p.minimise = icase::minimise;
-    p.share = 0.97;
+    p.share = 0.62;
     vf::run(p);
+
+    vf::Property<icase::ICase> pa;
+    pa.name = "ar_step";
+    pa.gen = [] {
+        using namespace rc;
+        return gen::map(gen::tuple(gen::resize(100, gen::arbitrary<uint64_t>()), gen::resize(100, gen::arbitrary<uint32_t>()), vf::u16b()),
+                        [](std::tuple<uint64_t, uint32_t, uint16_t> t) { return build_ar(Seed{std::get<0>(t), std::get<1>(t), std::get<2>(t)}); });
+    };
+    pa.check = check_ar;
+    pa.encode = icase::encode;
+    pa.decode = icase::decode;
+    pa.minimise = icase::minimise;
+    pa.share = 0.35;
+    vf::run(pa);
 
     vf::Property<Walk> q;
     q.name = "modulo_walk";
